@@ -144,7 +144,15 @@ impl Property for C19 {
         }
         let joined: Vec<Vec<u8>> = if join {
             let n_joined = *rng.pick(&[0usize, 3, 9, 10, 11, 12, 20, 21, 25, 31, 35]);
-            (0..n_joined).map(|_| sqlgen::gen_joined_line(rng, lc.keys, 10).into_bytes()).collect()
+            let mut j: Vec<Vec<u8>> = (0..n_joined).map(|_| sqlgen::gen_joined_line(rng, lc.keys, 10).into_bytes()).collect();
+            if rng.chance(1, 6) {
+                // a joined file that starts with a block of lines that are not rows (header, comments): an interrupted
+                // load may then end with an empty joined table
+                for i in 0..rng.range(9, 14) {
+                    j.insert(0, format!("# comment {}", i).into_bytes());
+                }
+            }
+            j
         } else {
             Vec::new()
         };
@@ -283,6 +291,7 @@ impl Property for C19 {
         let base_fails_on_bad_line = (bad_at.is_some() || unreadable_last || joined_bad_at.is_some()) && matches!(&base.status, Status::Err(msg) if msg.contains("read file"));
         out.probe("unreadable_later_input_file", unreadable_last as u64);
         out.probe("undecodable_line_in_joined_file", joined_bad_at.is_some() as u64);
+        out.probe("joined_file_starts_with_non_row_lines", joined.as_ref().map(|j| j.starts_with(b"# comment")).unwrap_or(false) as u64);
         if base.status != Status::Ok && !base_fails_on_bad_line {
             // a statement that fails on this data is not a scenario for this property
             out.invalid = Some(format!("uninterrupted run: {}", status_label(&base.status)));
